@@ -7,7 +7,7 @@
    claimant of interface name n under wlIdsAscending. *)
 From Coq Require Import List NArith Bool Lia.
 Import ListNotations.
-From Verif.C44 Require Import Model Spec MapLemmas Proofs Fixed Term Cover Meets.
+From Verif.C44 Require Import Model Spec MapLemmas Proofs Fixed Term Cover Meets Order Arrival.
 Open Scope N_scope.
 
 (* The loop of resolveWorkloadEndpoints terminates with an empty pending map for every iteration order
@@ -142,4 +142,62 @@ Example ex_fixed_nontrivial :
   let bs := [([Upd lo (mkEp 0 true 1 [4]); Upd hi (mkEp 0 true 2 [8])], [1%nat]); ([Upd lo (mkEp 1 false 3 [12])], [])] in
   o_ids (observe (run true st0 bs)) = [(0, hi); (1, lo)]
   /\ preferred (live_of (concat (map fst bs))) 0 = Some (hi, mkEp 0 true 2 [8]).
+Proof. vm_compute. auto. Qed.
+
+(* ---------- the preference order itself ---------- *)
+
+(* wlIdsAscending on the real identifiers (three Go strings compared with == and <, Model.sasc) is a strict total
+   order: irreflexive, asymmetric, transitive, and any two different ids are related one way.  (The seeded change
+   wlids-ascending-not-antisymmetric breaks exactly the second clause.) *)
+Theorem c44_wlids_ascending_strict_total_order :
+  (forall a, sasc a a = false)
+  /\ (forall a b, sasc a b = true -> sasc b a = false)
+  /\ (forall a b c, sasc a b = true -> sasc b c = true -> sasc a c = true)
+  /\ (forall a b, a <> b -> sasc a b = true \/ sasc b a = true).
+Proof. exact sasc_strict_total. Qed.
+Print Assumptions c44_wlids_ascending_strict_total_order.
+
+(* The manager model works with numbers in place of the strings.  Its order `asc` is a strict total order too, and
+   it IS wlIdsAscending under any coding of strings by numbers that preserves < (hence also ==). *)
+Theorem c44_model_order_strict_total_and_faithful :
+  ((forall a, asc a a = false)
+   /\ (forall a b, asc a b = true -> asc b a = false)
+   /\ (forall a b c, asc a b = true -> asc b c = true -> asc a c = true)
+   /\ (forall a b, a <> b -> asc a b = true \/ asc b a = true))
+  /\ (forall code : gstr -> N, (forall a b, slt a b = (code a <? code b)) ->
+        forall a b, asc (code3 code a) (code3 code b) = sasc a b).
+Proof. split; [exact asc_strict_total | exact asc_code3]. Qed.
+Print Assumptions c44_model_order_strict_total_and_faithful.
+
+(* The oracle for the order (Spec.ok_rel: strict total order on a finite cluster, applied in the correspondence run to
+   the matrix of results of the real wlIdsAscending) accepts the modelled order on every cluster. *)
+Theorem c44_order_model_meets_spec : forall ids, ok_rel sasc ids = true.
+Proof. exact ok_rel_sasc. Qed.
+Print Assumptions c44_order_model_meets_spec.
+
+(* The owner is the minimum: after any history and any iteration order, i owns interface name n exactly when i is
+   live, claims n and no live claimant of n is smaller. *)
+Theorem c44_owner_is_minimum :
+  forall bs n i, let s := run true st0 bs in let S := live_of (concat (map fst bs)) in
+    iget (o_ids (observe s)) n = Some i <-> exists w, least_claimant S n i w.
+Proof. exact owner_is_minimum. Qed.
+Print Assumptions c44_owner_is_minimum.
+
+(* Independence of the arrival order: two histories (different message order, different batching, different
+   iteration orders, superseded updates, removed and re-added endpoints ...) after which the same endpoints are live
+   with the same latest data program the same thing on every interface name. *)
+Theorem c44_independent_of_arrival_order :
+  forall bs bs' n,
+    (forall i, dget (live_of (concat (map fst bs))) i = dget (live_of (concat (map fst bs'))) i) ->
+    let o := observe (run true st0 bs) in let o' := observe (run true st0 bs') in
+    iget (o_ids o) n = iget (o_ids o') n /\ iget (o_tw o) n = iget (o_tw o') n /\ iget (o_fw o) n = iget (o_fw o') n
+    /\ routes_at o n = routes_at o' n /\ nmem n (o_dfrom o) = nmem n (o_dfrom o') /\ nmem n (o_dto o) = nmem n (o_dto o').
+Proof. exact arrival_independent. Qed.
+Print Assumptions c44_independent_of_arrival_order.
+
+(* two arrival orders of the same two claimants: same owner *)
+Example ex_arrival_orders :
+  let e1 := mkEp 0 true 1 [4] in let e2 := mkEp 0 true 2 [8] in
+  o_ids (observe (run true st0 [([Upd hi e2], []); ([Upd lo e1], [])])) = [(0, lo)]
+  /\ o_ids (observe (run true st0 [([Upd lo e1; Upd hi e2], [1%nat])])) = [(0, lo)].
 Proof. vm_compute. auto. Qed.
